@@ -100,3 +100,61 @@ end SignaloModel.Registry
 #print axioms SignaloModel.Registry.kalman_registry_hull
 #print axioms SignaloModel.Registry.emedian_registry_hull
 #print axioms SignaloModel.Registry.alphaBeta_registry_const
+
+namespace SignaloModel.Smooth
+
+variable {R : Type} [CommRing R]
+
+/-- **C14, scaling**: scaling all samples scales the output identically -/
+theorem ab_scale (alpha beta a : R) (xs : List R) :
+    abRun alpha beta { velocity := 0, value := none } (xs.map (a * ·)) =
+      (abRun alpha beta { velocity := 0, value := none } xs).map (a * ·) := by
+  have h := ab_linear alpha beta a 0 xs xs rfl { velocity := 0, value := none } { velocity := 0, value := none }
+    { velocity := 0, value := none } (by simp) (Or.inl ⟨rfl, rfl, rfl⟩)
+  have e1 : List.zipWith (fun x y => a * x + 0 * y) xs xs = xs.map (a * ·) := by
+    induction xs with
+    | nil => rfl
+    | cons x xs ih => simp [ih]
+  have e2 : ∀ l : List R, List.zipWith (fun p q => a * p + 0 * q) l l = l.map (a * ·) := by
+    intro l
+    induction l with
+    | nil => rfl
+    | cons x l ih => simp [ih]
+  rw [e1, e2] at h
+  exact h
+
+theorem zipWith_add_replicate (c : R) (l : List R) :
+    ∀ n : Nat, l.length = n → List.zipWith (fun p q => p + q) l (List.replicate n c) = l.map (· + c) := by
+  induction l with
+  | nil => intro n _; simp
+  | cons x l ih =>
+    intro n hn
+    cases n with
+    | zero => simp at hn
+    | succ n =>
+      have := ih n (by simpa using hn)
+      simp [List.replicate_succ, this]
+
+/-- **C14, offset**: adding a constant to all samples adds it to the output -/
+theorem ab_offset (alpha beta c : R) (xs : List R) :
+    abRun alpha beta { velocity := 0, value := none } (xs.map (· + c)) =
+      (abRun alpha beta { velocity := 0, value := none } xs).map (· + c) := by
+  have h := ab_linear alpha beta 1 1 xs (List.replicate xs.length c) (by simp)
+    { velocity := 0, value := none } { velocity := 0, value := none }
+    { velocity := 0, value := none } (by simp) (Or.inl ⟨rfl, rfl, rfl⟩)
+  rw [ab_const alpha beta c xs.length] at h
+  have hf : (fun (x y : R) => 1 * x + 1 * y) = (fun x y => x + y) := by funext x y; simp
+  have hl : (abRun alpha beta { velocity := 0, value := none } xs).length = xs.length := by
+    have : ∀ (s : ABState R) (l : List R), (abRun alpha beta s l).length = l.length := by
+      intro s l
+      induction l generalizing s with
+      | nil => rfl
+      | cons x l ih => simp [abRun, ih]
+    exact this _ _
+  rw [hf, zipWith_add_replicate c xs _ rfl, zipWith_add_replicate c _ _ hl] at h
+  exact h
+
+end SignaloModel.Smooth
+
+#print axioms SignaloModel.Smooth.ab_scale
+#print axioms SignaloModel.Smooth.ab_offset
